@@ -853,3 +853,60 @@ RECORD_ISVALUE = record_contract(
              ('read-only', 'schema or list_unchanged(self._componentValues)')],
     note='the declared components are a sequence of (isDefaulted, isOptional) records of any length')
 CONTRACTS = CONTRACTS + [RECORD_ISVALUE]
+
+
+# ---- isInconsistent (SEQUENCE OF / SET OF): the type's own constraints are evaluated on exactly the members ---------------------
+def _self_for_consistency(ex, env):
+    o = _self_with_items(ex, env)
+    ct = NOVALUE if ex.choose(z3.Bool('componentType.isNoValue'), 'componentType-noValue') else \
+        (None if ex.choose(z3.Bool('componentType.isNone'), 'untyped') else Obj('Asn1Item', {}, name='componentType'))
+    o.fields['componentType'] = ct
+
+    def spec_call(ex2, self, mapping):
+        """ConstraintsIntersection.__call__ (contracts type.constraint::*): raises ValueConstraintError unless the value is
+        admitted"""
+        o.fields['checked'] = mapping
+        if not ex2.choose(z3.Bool('constraints.admit'), 'admitted'):
+            raise _Raise(ExcV('ValueConstraintError'))
+        return None
+    o.fields['subtypeSpec'] = Obj('ConstraintsIntersection', {'__truthy__': z3.Bool('hasConstraints')}, {'__call__': spec_call},
+                                  name='subtypeSpec')
+    o.fields['checked'] = None
+    return o
+
+
+def _is_members(ex, mapping):
+    """the mapping holds exactly the members (position -> object), placeholders for "no value" left out"""
+    if not (isinstance(mapping, Obj) and 'present' in mapping.fields):
+        return False
+    p, ids = mapping.fields['present'], mapping.fields['ids']
+    return ForAll([_k], And(Select(p, _k) == And(Select(P0, _k), Select(ID0, _k) != NOV),
+                            Implies(Select(p, _k), Select(ids, _k) == Select(ID0, _k))))
+
+
+ISINCONSISTENT = contract(
+    id='type.univ::SequenceOfAndSetOfBase.isInconsistent', qual='SequenceOfAndSetOfBase.isInconsistent', prop='getter',
+    properties=['C14', 'C10'],
+    params=dict(componentType=PConst(None), self=PDerived(_self_for_consistency)),
+    globals=dict(G, sys=_SYS, error={'PyAsn1Error': ClassV('PyAsn1Error'), '__name__': 'error'},
+                 is_members=FnV(_is_members, 'is_members'), hasConstraints=z3.Bool('hasConstraints'),
+                 admitted=z3.Bool('constraints.admit'), noComponentType=z3.Bool('componentType.isNoValue'),
+                 copied_upto=FnV(lambda ex, mapping, seq, upto: And(
+                     ForAll([_i], Implies(And(_i >= 0, _i < toint(upto), seq.cols[1][_i] != NOV),
+                                          And(Select(mapping.fields['present'], seq.cols[0][_i]),
+                                              Select(mapping.fields['ids'], seq.cols[0][_i]) == seq.cols[1][_i]))),
+                     ForAll([_k], Implies(Select(mapping.fields['present'], _k),
+                                          And(Select(P0, _k), Select(ID0, _k) != NOV,
+                                              Select(mapping.fields['ids'], _k) == Select(ID0, _k))))), 'copied_upto')),
+    loops={0: Loop(index='i', invariant=['copied_upto(mapping, loop_seq, i)'],
+                   havoc_fields=['mapping.present', 'mapping.ids', 'mapping.count'])},
+    ensures=[
+        # the constraints of the collection type (SIZE, inner-type) decide, whether or not a component type is declared
+        ('consistent-iff-the-constraints-admit-the-members',
+         '(hasConstraints and not noComponentType and not schema) ==> '
+         '((result is False) == admitted and is_members(self.checked))'),
+        ('a-schema-object-is-not-a-value-of-a-constrained-type', '(hasConstraints and not noComponentType and schema) ==> result is True'),
+        ('nothing-to-check', '(not hasConstraints or noComponentType) ==> result is False'),
+        ('read-only', 'schema or unchanged(self._componentValues)')],
+    note='subtypeSpec.__call__ is the constraint contracts\' entry point (assumed model here: admits or raises)')
+CONTRACTS = CONTRACTS + [ISINCONSISTENT]
